@@ -274,6 +274,39 @@ impl Shared {
     }
 }
 
+/// Extra context for a read mismatch: what other read paths say right now, and the version history.
+fn diagnose(sh: &Shared, ki: usize, s: u64) -> String {
+    let k = &sh.gkeys[ki];
+    let point = sh.tree.get(k, s).map(|v| v.map(|v| esc(&v[..v.len().min(12)])));
+    let internal = sh.tree.get_internal_entry(k, u64::MAX).map(|e| e.map(|e| (e.key.seqno, format!("{:?}", e.key.value_type))));
+    let scan: Vec<String> = sh
+        .tree
+        .range::<Key, _>(k.clone()..=k.clone(), s, None)
+        .map(|g| g.into_inner().map(|(_, v)| esc(&v[..v.len().min(12)])).unwrap_or_else(|e| format!("Err({e:?})")))
+        .collect();
+    let hist: Vec<String> = {
+        let lock = sh.tree.get_version_history_lock();
+        let chosen = verif::super_version_parts(&lock.get_version_for_snapshot(s));
+        let mut v: Vec<String> = lock
+            .verif_history()
+            .iter()
+            .map(|sv| {
+                let (ver, seq, sealed, active) = verif::super_version_parts(sv);
+                format!("(v{} seq={seq} active=m{active} sealed={sealed:?} tables={})", ver.id(), ver.table_count())
+            })
+            .collect();
+        v.push(format!("snapshot resolves to v{} seq={} active=m{}", chosen.0.id(), chosen.1, chosen.3));
+        v
+    };
+    let log: Vec<String> = sh.log.read().unwrap_or_else(|e| e.into_inner())[ki].iter().rev().take(4).map(|(q, v)| format!("{q}:{}", v.as_ref().map_or("DEL".to_string(), |v| esc(&v[..v.len().min(8)])))).collect();
+    format!(
+        "[diagnosis now: get@S={point:?}; newest internal entry={internal:?}; range(k..=k)@S={scan:?}; visible={} published={} inflight={}; last log records of the key (newest first)={log:?}; history={hist:?}]",
+        sh.visible.get(),
+        sh.published.load(Ordering::Acquire),
+        sh.inflight.load(Ordering::SeqCst)
+    )
+}
+
 fn viol(sig: &str, msg: String) -> Violation {
     Violation::new(&["C06"], sig, msg)
 }
@@ -369,17 +402,27 @@ fn reader(sh: &Shared, seed: u64, id: u64) -> Result<(), Violation> {
             std::thread::yield_now();
             continue;
         }
-        // C18 under concurrency: the reported high-water mark never lies below an acknowledged write
+        // C18 under concurrency: a value that was acknowledged before the call and is still the
+        // newest record of its key after the call was stored during the whole call, so the
+        // reported high-water mark cannot lie below its seqno. (An acknowledged write as such is no
+        // lower bound: a tombstone, and what it shadows, may be legitimately evicted at the last level.)
         if rng.chance(1, 3) {
-            let acked = sh.published.load(Ordering::Acquire);
-            if acked > 0 {
-                let h = sh.tree.get_highest_seqno();
-                sh.count("highest_seqno_checks", 1);
-                if h.is_none_or(|h| h < acked - 1) {
+            let before: Vec<usize> = (0..sh.gkeys.len()).map(|ki| sh.acked_len(ki)).collect();
+            let h = sh.tree.get_highest_seqno();
+            let bound = {
+                let log = sh.log.read().unwrap_or_else(|e| e.into_inner());
+                (0..sh.gkeys.len())
+                    .filter(|&ki| before[ki] > 0 && log[ki].len() == before[ki])
+                    .filter_map(|ki| log[ki].last().and_then(|(q, v)| v.as_ref().map(|_| *q)))
+                    .max()
+            };
+            sh.count("highest_seqno_checks", 1);
+            if let Some(b) = bound {
+                if h.is_none_or(|h| h < b) {
                     return Err(Violation::new(
                         &["C18"],
-                        "highest-seqno-below-acknowledged-write",
-                        format!("get_highest_seqno() = {h:?} although the write with seqno {} had already returned", acked - 1),
+                        "highest-seqno-below-stored-value",
+                        format!("get_highest_seqno() = {h:?} although the value written with seqno {b} was acknowledged before the call and is still the newest write of its key"),
                     ));
                 }
             }
@@ -420,11 +463,12 @@ fn reader(sh: &Shared, seed: u64, id: u64) -> Result<(), Violation> {
                         return Err(viol(
                             "scan-mismatch",
                             format!(
-                                "{} scan at published snapshot {s}: key {:?} yields {:?}, the writer's log allows {:?}",
+                                "{} scan at published snapshot {s}: key {:?} yields {:?}, the writer's log allows {:?} {}",
                                 if rev { "reverse" } else { "forward" },
                                 esc(k),
                                 g.map(|v| esc(&v[..v.len().min(12)])),
-                                cands.iter().map(|c| c.as_ref().map(|v| esc(&v[..v.len().min(12)]))).collect::<Vec<_>>()
+                                cands.iter().map(|c| c.as_ref().map(|v| esc(&v[..v.len().min(12)]))).collect::<Vec<_>>(),
+                                diagnose(sh, ki, s)
                             ),
                         ));
                     }
@@ -448,10 +492,11 @@ fn reader(sh: &Shared, seed: u64, id: u64) -> Result<(), Violation> {
                     return Err(viol(
                         "point-mismatch",
                         format!(
-                            "get({:?}) at published snapshot {s}: got {:?}, the writer's log allows {:?}",
+                            "get({:?}) at published snapshot {s}: got {:?}, the writer's log allows {:?} {}",
                             esc(&sh.gkeys[ki]),
                             g.map(|v| esc(&v[..v.len().min(12)])),
-                            cands.iter().map(|c| c.as_ref().map(|v| esc(&v[..v.len().min(12)]))).collect::<Vec<_>>()
+                            cands.iter().map(|c| c.as_ref().map(|v| esc(&v[..v.len().min(12)]))).collect::<Vec<_>>(),
+                            diagnose(sh, ki, s)
                         ),
                     ));
                 }
@@ -786,6 +831,10 @@ fn stress(seed: u64, case: u64, scratch: &Path, n_ops: usize) -> ExecResult {
         return ExecResult { violations: vec![], counters, sample, hash };
     }
     let mut violations: Vec<Violation> = std::mem::take(&mut *sh.violations.lock().unwrap_or_else(|e| e.into_inner()));
+    // a panic poisons the locks it held; panics of other threads on the poisoned lock are consequences
+    if violations.iter().any(|v| !v.msg.contains("poisoned")) {
+        violations.retain(|v| !v.msg.contains("poisoned"));
+    }
     for (k, v) in sh.counters.lock().unwrap_or_else(|e| e.into_inner()).iter() {
         bump(&mut counters, k, *v);
     }
